@@ -66,6 +66,19 @@ class RecDom(RecorderDomain):
     def on_call_attempt(self, node, t, state):
         st = RecorderDomain.on_call_attempt(self, node, t, state)
         lab = t.label
+        if t.role == 'body':
+            # the body may run nested output / input interceptions: they number outputs and (in replay) append them
+            # - only while a scope is open; from idle they are pass-through (C09.d, by mutual induction)
+            r = self.roles
+            pb = st.env.get(('F', 'self', r.playback))
+            ac = st.env.get(('F', 'self', r.active))
+            replaying = pb is not None and self.is_none(pb, st) is not True
+            recording = ac is not None and self.is_none(ac, st) is not True
+            if replaying or recording:
+                st = st.copy()
+                st.env[('F', 'self', r.counter)] = V('obj', ('havoc', 'counter-after-body'), EMPTY)
+                if replaying:
+                    st.env[('F', 'self', r.outputs)] = V('obj', ('havoc', 'outputs-after-body'), EMPTY)
         if lab == 'iface:TapeCassette.abort_recording' and node.frame.func is self.roles.discard:
             st = st.bump(('n', 'discard-abort'))
         if lab in ('iface:TapeCassette.save_recording', 'iface:TapeCassette.abort_recording',
@@ -170,3 +183,35 @@ def interception_due(dom, s):
     tested): the call must be intercepted"""
     e, i = initial_flags(dom, s)
     return i is not True and e is not False
+
+
+def per_run_fields(roles):
+    """fields of the recorder that some method other than __init__ re-assigns as part of a recording / replay scope"""
+    return [roles.active, roles.params, roles.force_flag, roles.counter, roles.playback, roles.outputs]
+
+
+def idle_value(dom, state, field):
+    """does `field` hold the value __init__ gives it? returns (ok, description)"""
+    roles = dom.roles
+    init = roles.init_values.get(field)
+    v = dom.field(state, field)
+    if v is None:
+        return True, 'untouched'
+    dirty = state.extra.get('dirty', frozenset())
+    if isinstance(init, ast.Constant):
+        if init.value is None:
+            return v.kind == 'none', v.kind
+        if init.value is False:
+            return v.kind == 'false', v.kind
+        if init.value is True:
+            return v.kind == 'true', v.kind
+    if isinstance(init, ast.Call) and isinstance(init.func, ast.Name):
+        ctor = init.func.id
+        ok = v.kind == 'obj' and isinstance(v.name, tuple) and v.name[0] in ('new', 'init') and v.name[1] == ctor and \
+            v.name not in dirty
+        return ok, ('fresh %s()' % ctor) if ok else 'not a fresh %s(): %s' % (ctor, v.name if v.kind == 'obj' else v.kind)
+    if isinstance(init, (ast.List, ast.Dict)) and not (init.elts if isinstance(init, ast.List) else init.keys):
+        ok = v.kind == 'obj' and isinstance(v.name, tuple) and ((v.name[0] == 'lit' and v.name[-1] is True) or
+                                                              v.name[0] == 'init') and v.name not in dirty
+        return ok, 'fresh empty container' if ok else 'not a fresh empty container: %s' % (v.name if v.kind == 'obj' else v.kind,)
+    return True, 'not modelled'
